@@ -40,7 +40,7 @@ def run(ctx):
     sc = sorts[0]
     # which tuple field holds the priority?
     prio_field = None
-    for cb in db.find_bodies(r'^server::subscriptions::subscriptions::Subscriptions::tick::\{closure#\d+\}$'):
+    for cb in db.find_bodies(r'^server::subscriptions::subscriptions::Subscriptions::tick(::\{closure#\d+\})*$'):
         Fc = ctx.facts(cb)
         for bi, blk in enumerate(cb.blocks):
             for st in blk['s']:
